@@ -711,7 +711,8 @@ class Overrun(BaseException):
 CONNECT_EXPECT = {'disc': True, 'none': True, 'commerr': True, 'terminate': True,
                   'ioerror': False, 'secerr': False, 'kbdint': False}
 # minimised past failures first: (cause, exchange index of the end, role, device recovers afterwards)
-CONNECT_CORPUS = [('ioerror', 0, 'initiator', True), ('ioerror', 1, 'target', True), ('secerr', 2, 'initiator', True),
+CONNECT_CORPUS = [('ioerror:timedout', 1, 'initiator', True), ('ioerror:epipe@collect', 1, 'target', True),
+                  ('ioerror', 0, 'initiator', True), ('ioerror', 1, 'target', True), ('secerr', 2, 'initiator', True),
                   ('ioerror', 2, 'initiator', False)]
 
 
@@ -752,6 +753,7 @@ def connect_once(cause, end_at, role, recover, chooser=None):
             return L.GB
 
         def on_connect(llc):
+            L.arm(peer, llc)
             s = sock(llc, RAW)
             s.bind(40)
 
@@ -813,7 +815,7 @@ def connect_monitor(ck, cause, end_at, role, recover, res):
                      % (cause, r[0]), data)
         return
     # a device that stays broken makes terminate() raise IOError from mac.deactivate(): documented result False
-    expect = CONNECT_EXPECT[cause] if recover else False
+    expect = CONNECT_EXPECT[L.base_cause(cause)] if recover else False
     if r[1] is not expect:
         ck.violation('connect-wrong-result:' + cause,
                      'connect() returned %r after the llcp link ended by %s (device %s), documented: %r'
@@ -837,6 +839,12 @@ def connect_returns(ck, only=None):
                 for recover in (True, False):
                     if (cause, end_at, role, recover) not in plan:
                         plan.append((cause, end_at, role, recover))
+    for member in L.ERROR_FAMILY:
+        for place in L.PLACES:
+            cause = member if place == 'exchange' else member + '@' + place
+            for end_at, role in ((0, 'initiator'), (2, 'target')):
+                if (cause, end_at, role, True) not in plan:
+                    plan.append((cause, end_at, role, True))
     if only is not None:
         plan = [only]
     import random
@@ -847,6 +855,30 @@ def connect_returns(ck, only=None):
             ck.case(('connect', cause, end_at, role, recover, tuple(res['schedule'])), True)
             ck.count('connect:' + cause)
             connect_monitor(ck, cause, end_at, role, recover, res)
+
+
+def error_family(ck):
+    """every member of the family of exceptions the link loop has to treat alike (plain IOError, the builtin
+    subclasses Python 3 makes of IOError(ETIMEDOUT/EPIPE/EACCES), a driver's IOError subclass, the sec.* errors and
+    a subclass) x where it is raised (mac.exchange, collect, dispatch) x exchange index x role, with threads
+    blocked in recvfrom (2), resolve and connect: the link must be terminated and nobody left waiting"""
+    quick = ck.tier == 'quick'
+    for member in L.ERROR_FAMILY:
+        for place in L.PLACES:
+            cause = member if place == 'exchange' else member + '@' + place
+            for end_at in ((0, 2) if quick else (0, 1, 2, 3)):
+                for role in ('initiator', 'target'):
+                    case = {'scenario': 'threads', 'cause': cause, 'end_at': end_at, 'role': role}
+                    out = run_case(case)
+                    monitor(ck, case, out)
+                    note_case(ck, case, out, ('family',))
+                    if out['term'][0] is None or out['run_result'] not in ('SystemExit',):
+                        # the run loop must have called terminate() and left through SystemExit
+                        data = dict(case, run_result=out['run_result'], term=out['term'], schedule=out['schedule'],
+                                    blocked=out['blocked'])
+                        ck.violation('run-loop-error-not-handled:' + L.base_cause(cause),
+                                     'the llcp run loop does not terminate the link on %s raised in %s: run() ended with %r, terminate() %s'
+                                     % (member, place, out['run_result'], 'not called' if out['term'][0] is None else 'called'), data)
 
 
 def device_still_broken(ck):
@@ -924,7 +956,15 @@ def main():
         found |= set(monitor(ck, case, out))
         note_case(ck, case, out, ('corpus',))
         total += 1
+    error_family(ck)
     connect_returns(ck)          # starts with its own corpus of minimised past failures
+    members = {'ioerror': [m for m in L.ERROR_FAMILY if m.startswith('ioerror')],
+               'secerr': [m for m in L.ERROR_FAMILY if m.startswith('secerr')]}
+    for i, case in enumerate(plan):
+        fam = members.get(case['cause'])
+        if fam:
+            place = L.PLACES[(i // len(fam)) % len(L.PLACES)]
+            case['cause'] = fam[i % len(fam)] + ('' if place == 'exchange' else '@' + place)
     for case in plan:
         runs, keys = explore(ck, case, per_case_budget, depth2, nrandom)
         total += runs
@@ -973,6 +1013,8 @@ def replay(ck):
             connect_returns(ck)
     elif key.startswith('hang-device-broken'):
         device_still_broken(ck)
+    elif key.startswith('run-loop-error-not-handled'):
+        error_family(ck)
     else:
         print('replay file has no schedule; rerun ./check C09')
         sys.exit(2)
